@@ -668,10 +668,9 @@ def write_job(job):
     try:
         lines, ncomments = lex_text(text)
         ev.append({"op": "write", "res": "ok", "exc": "", "fam": "-", "lines": lines, "nlok": nlok, "ncomments": ncomments})
-    except Exception as e:  # the output is not even lexable as writer output
+    except Exception as e:  # not lexable by this driver: an observation only, the end-to-end re-read still runs
         ev.append({"op": "write", "res": "unlexable", "exc": repr(e)[:200], "fam": "-", "lines": [], "nlok": nlok,
                    "ncomments": 0})
-        return tr
     # end to end: feed the text to the real reader (CRLF only through a text-mode file)
     og = job["og"]
     try:
